@@ -1,3 +1,5 @@
 SPECIFICATION Spec
-CONSTANT N = 5
+CONSTANTS
+  N = 5
+  UseBaseList = TRUE
 INVARIANT Emit
